@@ -1,4 +1,4 @@
-import IronCalc.Codec.RefsProofs2
+import IronCalc.Codec.RefsProofs3
 import IronCalc.Codec.Lex
 import IronCalc.Codec.CharClassTable
 /-
@@ -109,6 +109,47 @@ theorem a1_range_roundtrip (cr cc : Int) (a b : PRef) (rest : List Char)
     have eb := tokenToNode_tokenOf cr cc b
     simp only [tokenOf] at ea eb ⊢
     rw [ea, eb]
+
+/-- A whole-column range (`$A:C`, also the whole sheet `$A:$XFD` after fix F22b): printed without
+    rows, read back by the fallback branch of consume_range_a1 with rows 1 … 1048576. -/
+theorem a1_column_range_roundtrip (cr cc : Int) (a b : PRef) (rest : List Char)
+    (ha : InGrid cr cc a) (hb : InGrid cr cc b) (hfr : fullRowOf a b = true)
+    (hrest : stops isAlphaOrDigit rest = true) :
+    consumeRangeA1 (printRangeA1 [] cr cc a b ++ rest)
+      = some ({ left := tokenOf cr cc a, right := some (tokenOf cr cc b) }, rest) := by
+  obtain ⟨h1, h2, h3, h4⟩ := fullRowOf_spec a b hfr
+  unfold printRangeA1
+  rw [hfr, fullColOf_false_of_fullRow a b hfr, List.append_assoc, List.cons_append,
+    printA1_colonly cr cc a ha, printA1_colonly cr cc b hb]
+  obtain ⟨_, _, a3, a4⟩ := ha
+  obtain ⟨_, _, b3, b4⟩ := hb
+  rw [consumeRangeA1_columns _ _ _ _ rest (by omega) (by omega) (by omega) (by omega) hrest]
+  simp only [toNat_cast _ (show (0:Int) ≤ resolvedCol cc a by omega),
+    toNat_cast _ (show (0:Int) ≤ resolvedCol cc b by omega), tokenOf, resolvedRow, h1, h2, h3, h4,
+    if_true, LAST_ROW]
+  rfl
+
+/-- A whole-row range (`1:$5`): printed without columns, read back with columns 1 … 16384. -/
+theorem a1_row_range_roundtrip (cr cc : Int) (a b : PRef) (rest : List Char)
+    (ha : InGrid cr cc a) (hb : InGrid cr cc b) (hfc : fullColOf a b = true)
+    (hrest : stops isAlphaOrDigit rest = true) :
+    consumeRangeA1 (printRangeA1 [] cr cc a b ++ rest)
+      = some ({ left := tokenOf cr cc a, right := some (tokenOf cr cc b) }, rest) := by
+  obtain ⟨h0, h1, h2, h3, h4⟩ := fullColOf_spec a b hfc
+  unfold printRangeA1
+  rw [hfc, h0, List.append_assoc, List.cons_append,
+    printA1_rowonly cr cc a ha, printA1_rowonly cr cc b hb]
+  obtain ⟨a1, a2, _, _⟩ := ha
+  obtain ⟨b1, b2, _, _⟩ := hb
+  rw [consumeRangeA1_rows _ _ _ _ rest (by omega) (by omega) hrest]
+  simp only [toNat_cast _ (show (0:Int) ≤ resolvedRow cr a by omega),
+    toNat_cast _ (show (0:Int) ≤ resolvedRow cr b by omega), tokenOf, resolvedCol, h1, h2, h3, h4,
+    if_true, LAST_COLUMN]
+  rfl
+
+/-- the whole sheet is a whole-column range for the repaired printer (fix F22b) -/
+example : fullRowOf { column := 1, row := 1, absCol := true, absRow := true }
+    { column := 16384, row := 1048576, absCol := true, absRow := true } = true := by decide
 
 /-! ### R1C1 references -/
 
